@@ -11,6 +11,8 @@ mod t5_impl; // T5 (C12): HashMap/HashSet sites and their consumers -> Generated
 mod extract_t3; // T3 (C19/C17): derive sets -> Generated/Derives.lean
 #[path = "../extract_t7.rs"]
 mod extract_t7; // T7 (C15): is_crate predicates, MacroSettings collection kinds -> Generated/Frontends.lean
+#[path = "../extract_t9.rs"]
+mod extract_t9; // T9 (C01): panic sites reachable from to_stream -> Generated/PanicSites.lean
 
 struct FnFinder<'a> {
     name: &'a str,
@@ -181,6 +183,7 @@ fn main() {
     }
     extract_t3::t3_derives(repo, outdir);
     extract_t7::t7_frontends(repo, outdir);
+    extract_t9::t9_panic_sites(repo, outdir);
     if let Some(msg) = t5_problem {
         fail(&msg);
     }
